@@ -317,6 +317,9 @@ edition = "{edition}"
                         with open(f) as fin:
                             shutil.copyfileobj(fin, out)
                 first_dump = keep
+                if os.path.getsize(keep) == 0 and self.cases:
+                    raise ToolError(f"{self.name}: the first compiler pass expanded nothing (a generated file does not parse, or the "
+                                    f"hook is off): " + "; ".join(str(v[0]["message"])[:120] for v in list(bad.values())[:3]))
             if unattributed and not bad:
                 raise ToolError(f"{self.name}: compiler error outside case files:\n" + "\n".join(unattributed[:5]))
             if not bad:
